@@ -746,8 +746,8 @@ Proof. unfold cnt. induction l as [|x r IH]; simpl; auto. destruct (k <=? x); si
 Lemma cnt_mono a b l : a <= b -> (cnt b l <= cnt a l)%nat.
 Proof.
   intro H. unfold cnt. induction l as [|x r IH]; simpl; auto.
-  destruct (b <=? x) eqn:E1; destruct (a <=? x) eqn:E2; simpl; try lia.
-  apply Z.leb_le in E1. apply Z.leb_gt in E2. lia.
+  destruct (b <=? x) eqn:E1; destruct (a <=? x) eqn:E2; simpl; try lia;
+    apply Z.leb_le in E1; apply Z.leb_gt in E2; lia.
 Qed.
 Lemma cnt_kdel_le a k l : (cnt a (kdel k l) <= cnt a l)%nat.
 Proof.
@@ -759,8 +759,8 @@ Proof.
   unfold cnt. induction l as [|x r IH]; simpl; [tauto|]. intros [->|H].
   - replace (k + 1 <=? k) with false by (symmetry; apply Z.leb_gt; lia). rewrite Z.leb_refl. simpl.
     pose proof (cnt_mono k (k + 1) r). unfold cnt in *. lia.
-  - specialize (IH H). destruct (k + 1 <=? x) eqn:E1; destruct (k <=? x) eqn:E2; simpl; try lia.
-    apply Z.leb_le in E1. apply Z.leb_gt in E2. lia.
+  - specialize (IH H). destruct (k + 1 <=? x) eqn:E1; destruct (k <=? x) eqn:E2; simpl; try lia;
+      apply Z.leb_le in E1; apply Z.leb_gt in E2; lia.
 Qed.
 Lemma cnt_kins c k l : c < k -> cnt k (kins c l) = cnt k l.
 Proof.
